@@ -908,8 +908,11 @@ fn history(ctx: &Ctx, seed: u64) -> Report {
     create.push("--name".into());
     create.push("renamed".into());
   }
+  // other options of create ride along: whatever metadata they add, the created torrent must verify
+  let noise = super::create_noise(&mut rng, &["--md5"]);
+  create.extend(noise.iter().cloned());
   let out = Cmd::args_owned(&ctx.imdl, create.clone()).cwd(&sb.root).run();
-  let case0 = json!({"history_seed": seed, "p": p, "single": single, "md5": md5, "rename": rename, "files": orig.iter().map(|f| (f.0.clone(), f.1.len())).collect::<Vec<_>>()});
+  let case0 = json!({"history_seed": seed, "p": p, "single": single, "md5": md5, "rename": rename, "other_options": noise, "files": orig.iter().map(|f| (f.0.clone(), f.1.len())).collect::<Vec<_>>()});
   r.case(None);
   if !out.ok() {
     r.fail("property", "create-failed", case0, format!("create failed: {}", out.stderr_s()));
